@@ -112,8 +112,8 @@ let run_case line =
                    let before = sweep () in
                    let same = ref true in
                    (match update (tail op) (fun () -> same := (sweep () = before)) with
-                    | None -> emit "x0no-timer"
-                    | Some _ -> emit (if !same then "x1" else "x0model"))
+                    | None -> emit "x0no-timer"; emit "r--"
+                    | Some t -> emit (if !same then "x1" else "x0model"); emit t)
           | _ -> emit ("?" ^ op))
         ops;
       print_endline (Buffer.contents out)
